@@ -102,26 +102,20 @@ structure RateLimiter where
   node : Option (Limiter Nat)
   ip : Option (Limiter Nat)
 
+/-- An optional quota: `Some(q) => Some(Limiter::from_quota(q)?)`, `None => None`. -/
+def optFromQuota (q : Option (Nat × Nat)) : Option (Option (Limiter Nat)) :=
+  match q with
+  | some (n, p) => (fromQuota n p).map some
+  | none => some none
+
 /-- `RateLimiterBuilder::build` for quotas `(max_tokens, period in ns)`; `none` = `Err(_)`. -/
 def RateLimiter.build (total node ip : Option (Nat × Nat)) : Option RateLimiter :=
   match total with
   | none => none
   | some (n, p) =>
-    match (fromQuota n p : Option (Limiter Unit)) with
-    | none => none
-    | some totalRl =>
-      let nodeRl : Option (Option (Limiter Nat)) := match node with
-        | some (n, p) => (fromQuota n p).map some
-        | none => some none
-      match nodeRl with
-      | none => none
-      | some nodeRl =>
-        let ipRl : Option (Option (Limiter Nat)) := match ip with
-          | some (n, p) => (fromQuota n p).map some
-          | none => some none
-        match ipRl with
-        | none => none
-        | some ipRl => some { total := totalRl, node := nodeRl, ip := ipRl }
+    match (fromQuota n p : Option (Limiter Unit)), optFromQuota node, optFromQuota ip with
+    | some totalRl, some nodeRl, some ipRl => some { total := totalRl, node := nodeRl, ip := ipRl }
+    | _, _, _ => none
 
 /-- `RateLimiter::allows(request)` at `elapsed = ns` (`let tokens = 1`). -/
 def RateLimiter.allows (r : RateLimiter) (ns : Nat) : LimitKind → RateLimiter × Verdict
